@@ -56,7 +56,7 @@ func (*renderer).Render$1
   ensures [descending] forall s int, t int {regPrio(s), regPrio(t)} :: (old(regN()) <= s && s < t && t < regN()) ==> regPrio(s) >= regPrio(t)
   ensures [kept] forall t int {regPrio(t)} :: (0 <= t && t < old(regN())) ==> regPrio(t) == old(regPrio(t))
   loop 0 inv *r != nil && (*r).config != nil && (*r).config == old((*r).config) && l == len(nrs(r)) && -1 <= i && i < l && regN() == old(regN()) + (l - 1 - i)
-  loop 0 inv [sorted] forall a int, b int {nrs(r)[a], nrs(r)[b]} :: (0 <= a && a < b && b < len(nrs(r))) ==> nrs(r)[a].Priority <= nrs(r)[b].Priority
+  loop 0 inv [sorted] forall a int, b int {nrs(r)[a].Priority, nrs(r)[b].Priority} :: (0 <= a && a < b && b < len(nrs(r))) ==> nrs(r)[a].Priority <= nrs(r)[b].Priority
   loop 0 inv [visited] forall t int {regPrio(t)} :: (old(regN()) <= t && t < regN()) ==> regPrio(t) == nrs(r)[l - 1 - (t - old(regN()))].Priority
   loop 0 inv [kept] forall t int {regPrio(t)} :: (0 <= t && t < old(regN())) ==> regPrio(t) == old(regPrio(t))
   loop 1 inv *r != nil && (*r).config != nil && (*r).config == old((*r).config)
